@@ -146,7 +146,13 @@ struct sch_t : scheduler {
         std::ostringstream os;
         os << "n=" << _scheduled.size();
         for (auto &x : _scheduled)
-            os << " " << ticks(x._tp) << ":" << reinterpret_cast<std::uintptr_t>(x._ident) << ":" << (x._p ? 1 : 0);
+        {
+            // identifiers used by the harness are small numbers; anything else is interval()'s `&tag`
+            auto id = reinterpret_cast<std::uintptr_t>(x._ident);
+            os << " " << ticks(x._tp) << ":";
+            if (id < (1u << 20)) os << id; else os << "T";
+            os << ":" << (x._p ? 1 : 0);
+        }
         return os.str();
     }
 };
@@ -166,16 +172,54 @@ static void run_manual(std::istream &in) {
     vh::fut_set<void> sl("sleep");
     std::vector<std::string> evs;
     std::string line;
+    // interval() generator driven through its public interface, stopped through a std::stop_token
+    std::optional<generator<std::size_t>> gen;
+    std::optional<std::stop_source> stp;
+    std::unique_ptr<future<std::size_t>> tick;
+    auto poll_tick = [&] {
+        if (tick && tick->ready()) {
+            evs.push_back(std::string("ivl=") + (tick->has_value() ? "tick" : "done"));
+            tick.reset();
+        }
+    };
+    auto finish_ivl = [&] {
+        // the generator may only be destroyed while it is paused on co_yield or finished: stop it first
+        if (gen) {
+            if (!stp->stop_requested()) stp->request_stop();
+            poll_tick();
+            gen.reset();
+        }
+    };
     while (std::getline(in, line)) {
         auto w = vh::split(line);
         if (w.empty()) continue;
         std::ostringstream head;
         auto num = [&](std::size_t i) { return w.size() > i ? atoll(w[i].c_str()) : 0LL; };
         if (w[0] == "end") {
+            finish_ivl();
             sch.reset();
             sl.poll(evs);
             vh::emit("end", evs);
             return;
+        } else if (w[0] == "ivl") {
+            // ivl <dur> <now>: create the generator (its body starts with the first `next`)
+            vt::now_ticks = num(2);
+            stp.emplace();
+            gen.emplace(sch->interval(std::chrono::milliseconds(num(1)), stp->get_token()));
+            head << "ivl";
+        } else if (w[0] == "next") {
+            // next <now>: ask for the next tick at clock reading <now>
+            vt::now_ticks = num(1);
+            if (!gen || tick || gen->done()) {
+                head << "next n/a";
+            } else {
+                unsigned long n0 = vt::notifies;
+                tick.reset(new future<std::size_t>((*gen)()));
+                head << "next " << (tick->ready() ? "ready" : "pending") << " ntf=" << (vt::notifies - n0);
+            }
+        } else if (w[0] == "stop") {
+            if (!stp) head << "stop n/a";
+            else head << "stop " << stp->request_stop();
         } else if (w[0] == "sleep" || w[0] == "sched") {
             long long tp = num(1), id = num(2);
             unsigned long n0 = vt::notifies;
@@ -187,6 +231,7 @@ static void run_manual(std::istream &in) {
             }
             head << "sleep#" << k << " " << sl.now(k) << " ntf=" << (vt::notifies - n0);
         } else if (w[0] == "ge") {
+            vt::now_ticks = num(1);
             scheduler::expired e = sch->get_expired(TP(num(1)));
             if (std::holds_alternative<scheduler::promise>(e)) {
                 head << "ge p";
@@ -196,11 +241,13 @@ static void run_manual(std::istream &in) {
             }
         } else if (w[0] == "drain") {
             // what the worker does at one instant: resolve everything that is due, in the order handed out
+            vt::now_ticks = num(1);
             for (;;) {
                 scheduler::expired e = sch->get_expired(TP(num(1)));
                 if (std::holds_alternative<scheduler::promise>(e)) {
                     std::get<scheduler::promise>(e)();
                     sl.poll(evs);
+                    poll_tick();
                 } else {
                     head << "drain " << tstr(std::get<vclock::time_point>(e));
                     break;
@@ -223,6 +270,7 @@ static void run_manual(std::istream &in) {
         } else if (w[0] == "dump") {
             head << "dump " << sch->dump();
         } else if (w[0] == "destroy") {
+            finish_ivl();
             sch.reset();
             head << "destroy";
             sl.poll(evs);
@@ -237,6 +285,7 @@ static void run_manual(std::istream &in) {
             head << "bad-op";
         }
         sl.poll(evs);
+        poll_tick();
         vh::emit(head.str(), evs);
     }
 }
